@@ -92,4 +92,53 @@ theorem chunks_all_ok {s : Bytes} {cov : Nat → Prop} {isn : Nat} {t : ATracker
   simp only [Bool.and_eq_true, decide_eq_true_eq, beq_iff_eq]
   exact ⟨⟨habove, hin⟩, hag⟩
 
+/-! ### facts about the spec's `frontier` -/
+
+theorem frontier_le (h : List Seg) (n : Nat) : frontier h n ≤ n := by
+  induction n with
+  | zero => simp [frontier]
+  | succ n ih =>
+    simp only [frontier]
+    split
+    · omega
+    · split <;> omega
+
+theorem frontier_ge (h : List Seg) (m n : Nat) (hn : n ≤ m) (hc : ∀ p, p < n → covered h p = true) :
+    n ≤ frontier h m := by
+  induction m generalizing n with
+  | zero => omega
+  | succ m ih =>
+    simp only [frontier]
+    by_cases hnm : n ≤ m
+    · have := ih n hnm hc
+      have := frontier_le h m
+      split
+      · omega
+      · split <;> omega
+    · have hn' : n = m + 1 := by omega
+      subst hn'
+      have h1 := ih m (Nat.le_refl _) (fun p hp => hc p (by omega))
+      have h2 := frontier_le h m
+      rw [if_neg (by omega), if_pos (hc m (by omega))]
+      omega
+
+/-- a history whose segments satisfy the static condition is valid -/
+theorem histOK_of_static {s : Bytes} {h : List SegD} (hall : ∀ g ∈ h, g.okStatic s) : HistOK s h := by
+  induction h with
+  | nil => trivial
+  | cons g h ih =>
+    refine ⟨?_, ih (fun x hx => hall x (List.mem_cons_of_mem _ hx))⟩
+    obtain ⟨h1, h2, h3⟩ := hall g List.mem_cons_self
+    refine ⟨?_, h2, h3⟩
+    have := frontier_le (h.map SegD.seg) s.length
+    omega
+
+theorem runModelFwd_eq (isn : Nat) (h : List SegD) : runModelFwd isn h = runModel isn h.reverse := by
+  unfold runModelFwd
+  rw [List.foldl_eq_foldr_reverse]
+  generalize h.reverse = r
+  induction r with
+  | nil => rfl
+  | cons g r ih => simp only [List.foldr_cons, runModel]; rw [ih]
+
 end Tins.DT
